@@ -158,6 +158,9 @@ DOC_OPS = [
     ['add_path', 'dstring', 4, 2, None], ['add_path', 'Path', 1, 2, ['ga']], ['add_path', 'Path', 4, 0, ['ga', 'gb']],
     ['add_path', 'Path', 3, 3, None], ['add_path', 'Path', 0, 4, None],
     ['add_group', ['gc']], ['save'], ['save_reload'],
+    # a path object obtained FROM the document, edited in place, then added again (what is stored must be its
+    # current geometry, not what the element it came from says)
+    ['readd_edited', 0], ['readd_edited', 1],
 ]
 
 
@@ -181,6 +184,15 @@ def apply_history(hist, tmp, tag):
                 arg = p.d()
             doc.add_path(arg, attribs=at, group=None if grp is None else list(grp))
             model.append((p, at, grp))
+        elif op[0] == 'readd_edited':
+            cur = doc.paths()
+            if not cur:
+                continue
+            q = cur[op[1] % len(cur)]
+            q.end = q.end + (2 - 1j)
+            at = {'id': 'edited%d' % i}
+            doc.add_path(q, attribs=at)
+            model.append((j2path(path2j(q)), at, None))
         elif op[0] == 'add_group':
             doc.get_or_add_group(list(op[1]))
         elif op[0] in ('save', 'save_reload'):
@@ -193,10 +205,10 @@ def apply_history(hist, tmp, tag):
 
 def model_key(hist):
     """canonical state key: the model (ordered adds), groups created, and save status"""
-    adds = [tuple(map(str, op)) for op in hist if op[0] == 'add_path']
+    adds = [tuple(map(str, op)) for op in hist if op[0] in ('add_path', 'readd_edited')]
     groups = sorted(set(str(op[1]) for op in hist if op[0] == 'add_group'))
     last_save = max([i for i, op in enumerate(hist) if op[0] in ('save', 'save_reload')] + [-1])
-    dirty = any(op[0] in ('add_path', 'add_group') for op in hist[last_save + 1:]) if last_save >= 0 else None
+    dirty = any(op[0] in ('add_path', 'add_group', 'readd_edited') for op in hist[last_save + 1:]) if last_save >= 0 else None
     reloaded = any(op[0] == 'save_reload' for op in hist)
     return core.canon([adds, groups, dirty, reloaded])
 
@@ -207,7 +219,7 @@ def inspect_doc(hist, tmp, acc):
     with warnings.catch_warnings():
         warnings.simplefilter('ignore')
         r = outcome(lambda: apply_history(hist, tmp, tag))
-    nadds = sum(1 for op in hist if op[0] == 'add_path')
+    nadds = sum(1 for op in hist if op[0] in ('add_path', 'readd_edited'))
     acc.case(case, cls='document/adds%d/%s' % (min(nadds, 3), 'saved' if any(op[0].startswith('save') for op in hist) else 'memory'),
              nontrivial=nadds > 0)
     acc.traces += 1
